@@ -126,6 +126,7 @@ MODULAR = {
 }
 
 DEFAULT = {
+    'payload_of': None,
     'sgr_group': summ_sgr_group,
     'sgr_kind': summ_sgr_kind,
     'AnsiString.set_ansi_str': summ_set_ansi_str,
@@ -173,8 +174,9 @@ def abs_getitem(interp, func, args, kwargs):
         hi = sym.i_add(lo, 1)
     else:
         raise PyExc('TypeError', 'Invalid type for __getitem__')
-    new = PObj('AnsiString', {'_fmts': ab.AbsTbl(ab.T_SLICE(t, sym.Z(lo), sym.Z(hi))),
-                              '_s': sym.s_slice(text, lo, hi)})
+    nt = ab.T_SLICE(t, sym.Z(lo), sym.Z(hi))
+    ab.wf_fact(c, [(t, n)], nt, sym.i_sub(hi, lo))
+    new = PObj('AnsiString', {'_fmts': ab.AbsTbl(nt), '_s': sym.s_slice(text, lo, hi)})
     return new
 
 
@@ -208,8 +210,11 @@ def abs_iadd(interp, func, args, kwargs):
         pass
     ab.install(c)
     na = sym.s_len(self_.attrs['_s'])
+    nb = sym.s_len(vtext)
+    nt = ab.T_CAT(ta, sym.Z(na), tb)
+    ab.wf_fact(c, [(ta, na), (tb, nb)], nt, sym.i_add(na, nb))
     self_.attrs['_s'] = sym.s_concat(self_.attrs['_s'], vtext)
-    self_.attrs['_fmts'] = ab.AbsTbl(ab.T_CAT(ta, sym.Z(na), tb))
+    self_.attrs['_fmts'] = ab.AbsTbl(nt)
     return self_
 
 
@@ -264,8 +269,10 @@ def abs_apply(interp, func, args, kwargs):
     if c.truth(sym.i_cmp('<=', hi, lo)):
         return None
     t = ab.table_term(self_)
-    self_.attrs['_fmts'] = ab.AbsTbl(ab.T_APPLY(t, sym.Z(n), ab.any_term(settings), sym.Z(lo), sym.Z(hi), sym.Z(topmost)
-                                                if not isinstance(topmost, bool) else z3.BoolVal(topmost)))
+    nt = ab.T_APPLY(t, sym.Z(n), ab.any_term(settings), sym.Z(lo), sym.Z(hi),
+                    sym.Z(topmost) if not isinstance(topmost, bool) else z3.BoolVal(topmost))
+    ab.wf_fact(c, [(t, n)], nt, n)
+    self_.attrs['_fmts'] = ab.AbsTbl(nt)
     return None
 
 
@@ -288,7 +295,9 @@ def abs_remove(interp, func, args, kwargs):
     if c.truth(sym.i_cmp('<=', hi, lo)):
         return None
     t = ab.table_term(self_)
-    self_.attrs['_fmts'] = ab.AbsTbl(ab.T_REMOVE(t, sym.Z(n), ab.any_term(settings), sym.Z(lo), sym.Z(hi)))
+    nt = ab.T_REMOVE(t, sym.Z(n), ab.any_term(settings), sym.Z(lo), sym.Z(hi))
+    ab.wf_fact(c, [(t, n)], nt, n)
+    self_.attrs['_fmts'] = ab.AbsTbl(nt)
     return None
 
 
@@ -332,16 +341,25 @@ def twin_wf_ok(interp, func, args, kwargs):
     return ab.WFP(v.attrs['_fmts'].term, sym.Z(sym.s_len(v.attrs['_s'])))
 
 
+def twin_payload_of(interp, func, args, kwargs):
+    x = args[0]
+    if isinstance(x, PObj) and x.cls == 'AnsiStr':
+        return x.attrs['__payload__']
+    if sym.is_str(x):
+        return x
+    raise Unsupported('payload_of(%r)' % (x,))
+
+
 def twin_same_value(interp, func, args, kwargs):
     """same_value(v, w): equal text and structurally equal table"""
     v, w = args
     tv, tw = ab.table_term(v), ab.table_term(w)
     if tv is None or tw is None or not (isinstance(v.attrs['_fmts'], ab.AbsTbl) or isinstance(w.attrs['_fmts'], ab.AbsTbl)):
         return NotImplemented
-    r = sym.s_eq(v.attrs['_s'], w.attrs['_s'])
+    r = bm.v_eq(interp, v.attrs['_s'], w.attrs['_s'])
     if isinstance(r, sym.Approx):
         r = r.cond
-    return sym.b_and(r, tv == tw)
+    return sym.b_and(r, True if tv.eq(tw) else (tv == tw))
 
 
 MODULAR['ABS'] = {
@@ -355,3 +373,157 @@ MODULAR['ABS'] = {
     'wf_ok': twin_wf_ok,
     'same_value': twin_same_value,
 }
+
+
+# =============================================================================================
+# Generic method summary for the wrapper (AnsiStr) proofs: every AnsiString method is an uninterpreted state
+# transformer  (table, text, arguments) -> (table', text', value).  What is proved with it is the *wiring* of a
+# caller: which method it calls, on which object (the receiver or a private copy), with which arguments in which
+# order, and what it does with the result.  That the in-place form and the copying form of a method compute the same
+# transformer is obligation group V3 (on the real bodies).
+
+MUTATORS_RETURNING_NONE = ('apply_formatting', 'remove_formatting', 'apply_formatting_for_match', 'format_matching',
+                           'unformat_matching', 'simplify', 'clear_formatting', 'assign_str', 'set_ansi_str',
+                           '_shift_settings_idx')
+RETURNS_NEW_VALUE = ('__getitem__', 'copy', '__add__')
+RETURNS_TRIPLE = ('partition', 'rpartition')
+RETURNS_LIST = ('split', 'rsplit', 'splitlines', '_split')
+
+
+class AbsAny:
+    """an engine value known only as an uninterpreted term (result of an uninterpreted method)"""
+    __slots__ = ('term',)
+
+    def __init__(self, term):
+        self.term = term
+
+
+def _encode_arg(interp, v):
+    if isinstance(v, AbsAny):
+        return [v.term]
+    if isinstance(v, bm.UStr):
+        return [v.term]
+    if isinstance(v, PObj) and v.cls == 'AnsiString' and ab.table_term(v) is not None:
+        return [ab.table_term(v), bm.str_term(v.attrs['_s'])]
+    if isinstance(v, PObj) and v.cls == 'AnsiStr' and isinstance(v.attrs.get('_s'), PObj):
+        return _encode_arg(interp, v.attrs['_s'])
+    if v is None or isinstance(v, bool) or sym.is_int(v) or sym.is_bool(v) or sym.is_str(v):
+        return bm._arg_term(interp, v)
+    return [ab.any_term(v)]
+
+
+def abs_method(interp, func, args, kwargs):
+    if func.cls != 'AnsiString' or func.kind != 'method' or not args:
+        return NotImplemented
+    self_ = args[0]
+    if not ab.is_abstract(self_):
+        return NotImplemented
+    c = ctx()
+    name = func.name
+    if name in ('__str__', '__repr__', '__format__', '__init__', '__iter__', 'copy', '__add__', 'expandtabs', 'zfill'):
+        return NotImplemented
+    a = func.node.args
+    params = [x.arg for x in a.args][1:]
+    vals = {}
+    rest = list(args[1:])
+    for pn in params:
+        if rest:
+            vals[pn] = rest.pop(0)
+    extra = tuple(rest)
+    if extra and a.vararg is None:
+        raise PyExc('TypeError', '%s() takes %d positional arguments' % (name, len(params) + 1), True)
+    for k, v in kwargs.items():
+        if k in vals:
+            raise PyExc('TypeError', 'multiple values for argument %s' % k, True)
+        vals[k] = v
+    allp = params + [x.arg for x in a.kwonlyargs]
+    for k in vals:
+        if k not in allp:
+            raise PyExc('TypeError', 'unexpected keyword argument %s' % k, True)
+    # defaults
+    ndef = len(a.defaults)
+    for i, pn in enumerate(params):
+        if pn not in vals:
+            j = i - (len(params) - ndef)
+            if j < 0:
+                raise PyExc('TypeError', 'missing argument %s' % pn, True)
+            vals[pn] = interp.default_value(func, a.defaults[j])
+    for i, x in enumerate(a.kwonlyargs):
+        if x.arg not in vals:
+            vals[x.arg] = interp.default_value(func, a.kw_defaults[i])
+    inplace = vals.pop('inplace', None)
+    terms = [ab.table_term(self_), bm.str_term(self_.attrs['_s'])]
+    for pn in allp:
+        if pn == 'inplace':
+            continue
+        terms.extend(_encode_arg(interp, vals[pn]))
+    if a.vararg is not None:
+        terms.append(z3.IntVal(len(extra)))
+        for v in extra:
+            terms.extend(_encode_arg(interp, v))
+    sorts = [t.sort() for t in terms]
+    key = 'M_%s_%d' % (name, len(terms))
+
+    def new_state(tag=''):
+        ft = z3.Function(key + tag + '_tbl', *(sorts + [ab.TBL]))
+        fs = z3.Function(key + tag + '_txt', *(sorts + [bm.STRSORT]))
+        return ab.AbsTbl(ft(*terms)), bm.UStr(fs(*terms))
+
+    if 'inplace' in allp:
+        tb, tx = new_state()
+        if interp.truth(inplace):
+            target = self_
+        else:
+            target = PObj('AnsiString')
+        target.attrs['_fmts'] = tb
+        target.attrs['_s'] = tx
+        return target
+    if name in MUTATORS_RETURNING_NONE:
+        tb, tx = new_state()
+        self_.attrs['_fmts'] = tb
+        self_.attrs['_s'] = tx
+        return None
+    if name == '__iadd__':
+        tb, tx = new_state()
+        self_.attrs['_fmts'] = tb
+        self_.attrs['_s'] = tx
+        return self_
+    if name in RETURNS_NEW_VALUE:
+        tb, tx = new_state()
+        return PObj('AnsiString', {'_fmts': tb, '_s': tx})
+    if name in RETURNS_TRIPLE:
+        out = []
+        for i in range(3):
+            tb, tx = new_state('_%d' % i)
+            out.append(PObj('AnsiString', {'_fmts': tb, '_s': tx}))
+        return tuple(out)
+    if name in RETURNS_LIST:
+        raise Unsupported('list-valued method on an abstract receiver')
+    if name in ('__iter__',):
+        return NotImplemented
+    fr = z3.Function(key + '_ret', *(sorts + [ab.ANY]))
+    return AbsAny(fr(*terms))
+
+
+class _GenericTable(dict):
+    """summary table that answers for every AnsiString.* method"""
+
+    def get(self, k, d=None):
+        if k in self:
+            return dict.get(self, k)
+        if isinstance(k, str) and k.startswith('AnsiString.') and k not in ('AnsiString.__init__', 'AnsiString.__len__',
+                                                                              'AnsiString.base_str'):
+            return abs_method
+        return d
+
+
+MODULAR['GENERIC'] = {
+    'AnsiString.__init__': abs_init,
+    'AnsiString.to_str': abs_to_str,
+    'view_texts': twin_view_texts,
+    'wf_ok': twin_wf_ok,
+    'same_value': twin_same_value,
+    '*': abs_method,
+}
+
+DEFAULT['payload_of'] = twin_payload_of
